@@ -19,7 +19,10 @@ import time
 VERIF = os.path.dirname(os.path.dirname(os.path.abspath(__file__)))
 REPO = os.environ.get("XCP_REPO", "/repo")
 BUILD = os.environ.get("VERIF_BUILD", os.path.join(VERIF, ".build"))
-COQ = os.path.join(VERIF, "coq")
+COQ_SRC = os.path.join(VERIF, "coq")
+# a redirected build (seed testing against a scratch repository) gets its own copy of the Coq development,
+# because theories/Extracted.v is regenerated from the repository under test
+COQ = COQ_SRC if "VERIF_BUILD" not in os.environ else os.path.join(BUILD, "coq")
 TARGET = os.path.join(BUILD, "target")
 WORKROOT = os.environ.get("VERIF_WORK", "/var/tmp/xcp-verif-work")
 OUTDIR = os.environ.get("VERIF_OUT", VERIF)     # evidence/ and replays/ (redirected when testing seeded changes)
@@ -62,9 +65,49 @@ def run(cmd, timeout=1800, **kw):
 # ---------------------------------------------------------------------------
 # Coq
 # ---------------------------------------------------------------------------
+def _sync_coq_copy():
+    if COQ == COQ_SRC:
+        return
+    for sub in ("theories", "proofs", "props"):
+        os.makedirs(os.path.join(COQ, sub), exist_ok=True)
+        for f in os.listdir(os.path.join(COQ_SRC, sub)):
+            if not f.endswith(".v") or f == "Extracted.v":
+                continue
+            a, b = os.path.join(COQ_SRC, sub, f), os.path.join(COQ, sub, f)
+            if (not os.path.exists(b)) or open(a).read() != open(b).read():
+                shutil.copy(a, b)
+    a, b = os.path.join(COQ_SRC, "_CoqProject"), os.path.join(COQ, "_CoqProject")
+    if (not os.path.exists(b)) or open(a).read() != open(b).read():
+        shutil.copy(a, b)
+
+
+def extract_model():
+    """Run the Rust -> Gallina translator (xlate/) on the repository's CURRENT source and install the result
+    as theories/Extracted.v (rewritten only when it changed).  Returns the translator's complaints."""
+    env = dict(CARGO_ENV)
+    env.pop("RUSTFLAGS", None)
+    r = run(["cargo", "build", "--offline"], cwd=os.path.join(VERIF, "xlate"),
+            env=dict(env, CARGO_TARGET_DIR=os.path.join(BUILD, "target-xlate")), timeout=1500)
+    if r.returncode != 0:
+        raise BuildError("xlate does not build:\n" + r.stdout[-3000:])
+    p = subprocess.run([os.path.join(BUILD, "target-xlate", "debug", "xlate"), REPO], stdout=subprocess.PIPE,
+                       stderr=subprocess.PIPE, text=True, timeout=120)
+    dst = os.path.join(COQ, "theories", "Extracted.v")
+    if (not os.path.exists(dst)) or open(dst).read() != p.stdout:
+        with open(dst, "w") as f:
+            f.write(p.stdout)
+    return [l for l in p.stderr.split("\n") if l.strip()]
+
+
 def build_coq():
-    """Full .vo build (no -vos). Returns (ok, log_text)."""
+    """Regenerate theories/Extracted.v from the repository, then a full .vo build (no -vos; `make -k`, so that a
+    broken file only takes down what depends on it).  Returns (ok, log_text)."""
     with locked("coq"):
+        _sync_coq_copy()
+        try:
+            complaints = extract_model()
+        except BuildError as e:
+            return False, str(e)
         mk = os.path.join(COQ, "Makefile")
         cp = os.path.join(COQ, "_CoqProject")
         if (not os.path.exists(mk)) or os.path.getmtime(mk) < os.path.getmtime(cp):
@@ -72,10 +115,20 @@ def build_coq():
             if r.returncode != 0:
                 return False, r.stdout
         try:
-            r = run(["make", "-j%d" % NPROC], cwd=COQ, timeout=1500)
+            r = run(["make", "-k", "-j%d" % NPROC], cwd=COQ, timeout=1500)
         except subprocess.TimeoutExpired:
             return False, "coq build timed out"
-        return r.returncode == 0, r.stdout
+        log_text = r.stdout
+        if complaints:
+            log_text += "\n" + "\n".join(complaints)
+        return r.returncode == 0, log_text
+
+
+def coq_built(rel):
+    """is coq/<rel>.vo present and newer than its source?"""
+    v = os.path.join(COQ, rel + ".v")
+    vo = os.path.join(COQ, rel + ".vo")
+    return os.path.exists(vo) and os.path.getmtime(vo) >= os.path.getmtime(v)
 
 
 def strip_coq_comments(src):
